@@ -625,7 +625,7 @@ func c18R5(c *Ctx) {
 	// declared keys
 	declared := map[string]bool{}
 	if th := c.Fn("builtinfunctions.HandleTypeSchemaCombine"); th != nil {
-		eachInstr(th, func(r instrRef) {
+		c.eachInstrLogical(th, func(r instrRef) {
 			if mu, ok := r.I.(*ssa.MapUpdate); ok {
 				if k, isC := constString(mu.Key); isC {
 					declared[k] = true
